@@ -34,6 +34,9 @@ def py_eval(e, act):
                 return ERR
             cur = cur[k]
         return cur
+    if "list" in e:
+        vs = [py_eval(x, act) for x in e["list"]]
+        return ERR if any(v is ERR for v in vs) else vs
     out = {}
     for k, x in e["map"]:
         v = py_eval(x, act)
@@ -59,13 +62,17 @@ def site_prefix_calls(log, prefix):
     return [[m, n] for m, n in log if _unsub(n) == prefix or _unsub(n).startswith(prefix + ".")]
 
 
-def oracle(case, obs):
-    """C01's clauses on what the implementation did; returns a list of (label, what)"""
+def oracle(case, obs, prep=None):
+    """C01's clauses on what the implementation did; returns a list of (label, what).
+    With `prep`, a step whose Logic is a sub-workflow is held to that sub-workflow's REAL outcome (the prepared
+    definition reconciled on its own with the step's inputs as trigger): not Ok ⇒ the step is not Ok either and
+    every step referencing it is a dependency-skip without any Logic evaluation."""
     bad = []
     if obs.get("raised"):
         return [("*", f"reconcile_workflow raised {obs['raised']}")]
     steps = gen_wf.main_steps(case)
     classes = obs["classes"]
+    eff = dict(classes)      # per-step class the dependency clauses go by (sub-workflow steps: their real outcome)
     state = obs["state_plain"]
     fns = case["fns"]
     obs_mode = {}
@@ -79,7 +86,7 @@ def oracle(case, obs):
         l = s["label"]
         mine = by_owner.get(l, [])
         cls = classes.get(l)
-        dep_cls = {d: classes.get(d) for d in s["deps"]}
+        dep_cls = {d: eff.get(d) for d in s["deps"]}
         non_ok = [d for d, c in dep_cls.items() if c is not None and c != "ok"]
         # (1) a non-Ok dependency: dependency-skip, and no API call on the step's behalf
         if non_ok:
@@ -165,6 +172,14 @@ def oracle(case, obs):
                 continue
         else:
             selected = [lg["ref"]] * len(evals)
+        # (4b) a sub-workflow step is exactly as Ok as the sub-workflow is
+        if prep is not None and not fe and selected and selected[0] and "wf" in selected[0]:
+            sub = wf_run.run_sub(prep, selected[0]["wf"], evals[0])
+            if sub and not sub["raised"] and sub["overall"]:
+                c_sub = sub["overall"]["c"]
+                if cls is not None and cls != c_sub:
+                    bad.append((l, f"sub-workflow {selected[0]['wf']} ends {c_sub} for these inputs but the step is reported {cls}"))
+                eff[l] = c_sub
         # (5) inputs exact: an echoing Function shows what the Logic received
         if cls == "ok" and obs_mode.get(l) and l in state:
             got = state[l]
@@ -194,6 +209,12 @@ def observe(case):
     if prep.problems:
         raise Infra(f"generated definitions rejected by prepare: {prep.problems[:2]}")
     return prep, wf_run.run_prepared(prep)
+
+
+def judge(case):
+    """prepare, run, oracle"""
+    prep, obs = observe(case)
+    return oracle(case, obs, prep)
 
 
 def compact(case):
@@ -256,12 +277,12 @@ def check_case(ck, case, ans, tag):
     if len(kinds) >= 2 and any(s["deps"] for s in steps):
         ck.nontriv(json.dumps(gen_wf.to_req(case), sort_keys=True))
     ck.sample({"case": compact(case), "impl": {k: obs.get(k) for k in ("overall", "classes", "log")}}, limit=3)
-    bad = oracle(case, obs)
+    bad = oracle(case, obs, prep)
     if bad:
         def fails(c):
-            return bool(oracle(c, observe(c)[1]))
+            return bool(judge(c))
         small = shrink(case, fails) if len(ck.violations) < 3 else case
-        sb = oracle(small, observe(small)[1]) or bad
+        sb = judge(small) or bad
         ck.violate({"case": compact(small)}, f"step {sb[0][0]}: {sb[0][1]}")
     # correspondence
     want_deps = {s["label"]: s["deps"] for s in steps}
@@ -304,7 +325,7 @@ def exhaustive(ck, drv, max_n):
                 total += 1
                 ck.evaluated()
                 obs = wf_run.run_prepared(prep, trigger=c["trig"])
-                bad = oracle(c, obs)
+                bad = oracle(c, obs, prep)
                 if bad:
                     ck.violate({"case": compact(c)}, f"step {bad[0][0]}: {bad[0][1]}")
                 if "error" in ans:
@@ -361,6 +382,27 @@ def run(tier: str) -> int:
         ck.build_ok = False
     for (c, mode), ans in zip(cases, answers):
         check_case(ck, c, ans, mode)
+    # targeted: sub-workflows whose inner steps are all skipped (overall Skip/DepSkip), referenced downstream
+    rs = rng("c01-subskip")
+    tcases = [gen_wf.gen_skipped_sub_case(rs) for _ in range(40 if tier == "quick" else 600)]
+    try:
+        tanswers = drv.ask([gen_wf.to_req(c) for c in tcases])
+    except Infra:
+        tanswers = [None] * len(tcases)
+    for c, ans in zip(tcases, tanswers):
+        o = check_case(ck, c, ans, "skipped-sub-workflow")
+        sub_label = next(s["label"] for s in gen_wf.main_steps(c)
+                         if "wf" in json.dumps(s["logic"]) and "sub-main" in json.dumps(s["logic"]))
+        ck.count("sub-workflow-step:" + str((o.get("classes") or {}).get(sub_label)))
+    # targeted: forEach over a list of maps one member of which cannot be evaluated
+    ri = rng("c01-itemerr")
+    icases = [gen_wf.gen_item_error_case(ri) for _ in range(30 if tier == "quick" else 400)]
+    try:
+        ianswers = drv.ask([gen_wf.to_req(c) for c in icases])
+    except Infra:
+        ianswers = [None] * len(icases)
+    for c, ans in zip(icases, ianswers):
+        check_case(ck, c, ans, "forEach-item-error")
     # exhaustive small DAGs × outcome assignments
     try:
         k = exhaustive(ck, drv, 3 if tier == "quick" else 4)
@@ -377,12 +419,11 @@ def run(tier: str) -> int:
         rr = rng("c01-widen")
         for i in range(1500):
             c = gen_wf.gen_case(rr, mode="obs")
-            _, obs = observe(c)
             ck.evaluated()
-            bad = oracle(c, obs)
+            bad = judge(c)
             if bad:
-                small = shrink(c, lambda x: bool(oracle(x, observe(x)[1])))
-                sb = oracle(small, observe(small)[1]) or bad
+                small = shrink(c, lambda x: bool(judge(x)))
+                sb = judge(small) or bad
                 ck.violate({"case": compact(small)}, f"step {sb[0][0]}: {sb[0][1]}")
                 return
 
@@ -401,8 +442,8 @@ def replay(path: str) -> int:
     items = data.get("violations") or [{"case": d.get("case")} for d in data.get("no_longer_checks", []) if d.get("case")]
     for v in items:
         case = v["case"]["case"] if "case" in v["case"] else v["case"]
-        _, obs = observe(case)
-        bad = oracle(case, obs)
+        prep, obs = observe(case)
+        bad = oracle(case, obs, prep)
         print("replay:", json.dumps({"steps": [s["label"] for s in gen_wf.main_steps(case)], "trig": case["trig"]}),
               "->", {k: obs.get(k) for k in ("overall", "classes", "log")}, "::", bad)
         rc = rc or (1 if bad else 0)
